@@ -15,6 +15,31 @@ use std::time::Instant;
 
 pub const VERIF_ROOT: &str = "/verif";
 
+/// Incremented after every evaluated case; a process-level watchdog turns a hang (a client
+/// operation that never returns to the executor) into exit status 2, never into a violation.
+pub static HEARTBEAT: std::sync::atomic::AtomicU64 = std::sync::atomic::AtomicU64::new(0);
+
+pub fn start_hang_watchdog() {
+    std::thread::spawn(|| {
+        let mut last = HEARTBEAT.load(Ordering::Relaxed);
+        let mut idle = 0u32;
+        loop {
+            std::thread::sleep(std::time::Duration::from_secs(5));
+            let cur = HEARTBEAT.load(Ordering::Relaxed);
+            if cur == last {
+                idle += 1;
+            } else {
+                idle = 0;
+                last = cur;
+            }
+            if idle >= 24 {
+                println!("INCONCLUSIVE: no case finished for 120 s (a client operation does not return); exit 2");
+                std::process::exit(2);
+            }
+        }
+    });
+}
+
 #[derive(Clone, Copy, Debug, PartialEq, Eq)]
 pub enum Tier {
     Quick,
@@ -148,6 +173,7 @@ impl Agg {
     /// Record one evaluated case (outside proptest: enumerations).
     pub fn record<T: Hash + Serialize>(&mut self, ctx: &Ctx, kind: &str, input: &T, ev: Eval) -> bool {
         self.evaluations += 1;
+        HEARTBEAT.fetch_add(1, Ordering::Relaxed);
         if ev.watchdog {
             self.watchdogs += 1;
         }
